@@ -3,7 +3,7 @@
 # the clean tree (same command on an unpatched copy: 6 failed, 862 passed -- the 6 are in BASELINE.json's always_fail list)
 ID=$1; shift
 for V in "$@"; do
-  SRC=/tmp/seed/$ID/_seed/$V; [ -f "$SRC/patch.diff" ] || SRC=/verif/seeded/$ID-$V
+  SRC=/tmp/seed/$ID/_seed/$V; [ -f "$SRC/patch.diff" ] || SRC=/tmp/seed/${ID}r2/_seed/$V; [ -f "$SRC/patch.diff" ] || SRC=/verif/seeded/$ID-$V
   W=/tmp/seedchk/t$ID$V; rm -rf $W; rsync -a --exclude .git --exclude _seed --exclude mapping.svg /repo/ $W/; (cd $W && patch -p1 -s < $SRC/patch.diff) || { echo "$ID-$V PATCHFAIL"; continue; }
   R=$(cd $W && nice -n 10 /venv/bin/python -m pytest -q -p no:cacheprovider --timeout=900 tests/test_toll.py tests/test_model.py tests/vibe_see_readme_in_this_dir tests/network 2>&1 | tail -1)
   echo "$ID-$V: $R"; rm -rf $W
